@@ -16,7 +16,8 @@ if "-j" in args:
 man = json.load(open(f"{V}/MANIFEST.json"))
 claimed = [c["property_id"] for c in man["checks"]]
 seeds = args or sorted(d for d in os.listdir(f"{V}/seeded") if os.path.isdir(f"{V}/seeded/{d}"))
-res_path = "/verif/seeded/RESULTS.json"
+res_path = os.environ.get("VERIF_MATRIX_RESULTS", "/verif/seeded/RESULTS.json")  # a second instance (other VERIF_MATRIX_PREFIX) must write elsewhere
+PFX = os.environ.get("VERIF_MATRIX_PREFIX", "/tmp/m")
 results = json.load(open(res_path)) if os.path.exists(res_path) else {}
 
 def files_of(p):
@@ -34,6 +35,9 @@ def files_of(p):
 FILES = {p: files_of(p) for p in claimed}
 WHOLE = {"C08": ("src/parsers", "src/expectation.rs", "src/rules", "src/escaping.rs", "src/newline.rs"),
          "C09": ("src/parsers", "src/generators", "src/expectation.rs", "src/rules", "src/escaping.rs", "src/newline.rs", "src/output.rs", "src/testcase.rs", "src/diff.rs", "src/outcome.rs"),
+         # bounded cross-checks run the real parsers / executors / rules: wider than the functions under contract
+         "C04": ("src/rules",), "C06": ("src/parsers",), "C07": ("src/parsers",), "C13": ("src/executors",), "C14": ("src/executors",), "C15": ("src/executors", "src/config.rs"),
+         "C16": ("src/config.rs",),
          "C10": ("src/parsers", "src/generators", "src/expectation.rs", "src/rules", "src/escaping.rs", "src/newline.rs", "src/output.rs", "src/testcase.rs", "src/diff.rs")}
 def relevant(p, target, touched):
     if p == target or FILES.get(p) is None or FILES[p] & touched:
@@ -60,7 +64,7 @@ lock = threading.Lock()
 def worker(i):
     import time
     time.sleep(6 * i)  # staggered start: the workers set up their worktrees one after the other
-    wt, bd, rc, evd, rp = f"/tmp/mw{i}", f"/tmp/mb{i}", f"/tmp/mr{i}", f"/tmp/me{i}", f"/tmp/mp{i}"
+    wt, bd, rc, evd, rp = f"{PFX}w{i}", f"{PFX}b{i}", f"{PFX}r{i}", f"{PFX}e{i}", f"{PFX}p{i}"
     subprocess.run(["git", "-C", "/repo", "worktree", "remove", "--force", wt], capture_output=True)
     assert subprocess.run(["git", "-C", "/repo", "worktree", "add", "--detach", wt, "HEAD", "-q"]).returncode == 0
     shutil.rmtree(rc, ignore_errors=True); os.makedirs(rc)
